@@ -231,8 +231,20 @@ def driver(model_args, lines, **kw):
     return run_parallel(DRIVER_BIN, model_args, lines, **kw)
 
 
+AUDIT = {"outputs": 0, "syntax": 0, "samples": []}
+
+
 def harness(model_args, lines, **kw):
-    return run_parallel(HARNESS_BIN, model_args, lines, **kw)
+    res = run_parallel(HARNESS_BIN, model_args, lines, **kw)
+    if os.environ.get("TV_AUDIT"):
+        # how many implementation outputs are SyntaxErrors: a generator whose programs tsrun cannot parse compares nothing
+        AUDIT["outputs"] += len(res)
+        for l, o in zip(lines, res):
+            if "SyntaxError" in o:
+                AUDIT["syntax"] += 1
+                if len(AUDIT["samples"]) < 3:
+                    AUDIT["samples"].append((model_args, l[:400], o[:200]))
+    return res
 
 
 def harness_dbg(model_args, lines, **kw):
@@ -358,6 +370,8 @@ class Ctx:
     def finish(self):
         rc = 0
         lines = []
+        if os.environ.get("TV_AUDIT"):
+            print("AUDIT %s harness outputs=%d with SyntaxError=%d %s" % (self.pid, AUDIT["outputs"], AUDIT["syntax"], json.dumps(AUDIT["samples"])[:1500]))
         for fid, what in sorted(self.known_hits.items()):
             lines.append("KNOWN-FINDING: property=%s %s (%s)" % (self.pid, what, fid))
         nviol = 0
